@@ -387,7 +387,17 @@ def gen_op(rng, U, malformed):
         if malformed:
             bad = rng.choice(["outside", "end", "over"])
             if bad == "outside":
-                return (k, [rng.choice([a - F(1, 2), b + F(1, 3)])])
+                # one outside value; or exactly as many copies as would make it a new clamped end (degree+1 copies, the old
+                # end becoming a legal interior knot), on one side or both; or degree+2 copies next to one copy of the far end
+                lo, hi = a - F(1, 2), b + F(1, 3)
+                shape = rng.choice(["one", "one", "newend", "newend", "both", "plus"])
+                if shape == "one":
+                    return (k, [rng.choice([lo, hi])])
+                if shape == "newend":
+                    return (k, [rng.choice([lo, hi])] * (p + 1))
+                if shape == "both":
+                    return (k, [lo] * (p + 1) + [hi] * (p + 1))
+                return (k, rng.choice([[hi] * (p + 2) + [a], [lo] * (p + 2) + [b], [hi] * (p + 1) + [a + (b - a) / 2]]))
             if bad == "end":
                 return (k, [rng.choice([a, b])])
             x = rng.choice(knots[1:-1]) if len(knots) > 2 else inside()
